@@ -17,7 +17,9 @@ What is proved (all for the code as it is, `Code.real`; every `leak_*` shows one
   `Enc.encodeEntry` of C01/C02, the console line is `Console.consoleLine` of C16;
 * `buffer_owner`, `in_flight_undisturbed` — the buffer returned by `EncodeEntry` is in no pool and referenced by no
   pooled object, and its bytes stay intact until the sink has seen them, whatever else happens in between;
-* `field_covered`, `source_matches_model_get`, `put_resets_cover_inv`, `put_sites`, `free_sites` — decided over `Gen/Pools.lean`, regenerated from the
+* `hook_reads_own_entry`, `hooked_entry_not_pooled` — a CheckedEntry is in no pool while its hook runs, so the hook reads
+  the entry of its own call whatever is logged meanwhile (`leak_early_put`: not so if `putCheckedEntry` comes first);
+* `put_is_last_use`, `field_covered`, `source_matches_model_get`, `put_resets_cover_inv`, `put_sites`, `free_sites` — decided over `Gen/Pools.lean`, regenerated from the
   source on every run: a new field, a dropped reset, a new put site or a moved `Free` breaks the build.
 
 Trusted: `sync.Pool` hands out an object to one user at a time (the oracle never returns an object that is
@@ -31,7 +33,7 @@ open ZapVerif ZapVerif.Pools ZapVerif.Json ZapVerif.Enc ZapVerif.Entry ZapVerif.
 /-- every operation keeps: pooled jsonEncoders reference no buffer, pooled slice encoders are empty, pooled
     Stacks have room, pooled/in-flight/live buffers are pairwise distinct and allocated, no fault happened -/
 theorem pool_inv_preserved (orc : Orc) (h : H) (op : Op) (hi : Inv h) : Inv (step Code.real orc h op) :=
-  (step_ok orc h ⟨h.inflight.map h.mem, h.live.map h.mem, h.out⟩ op hi ⟨rfl, rfl, rfl⟩).1
+  (step_ok orc h (psOf h) op hi (rel_self h)).1
 
 /-- … hence it holds after every history, for every behaviour of sync.Pool -/
 theorem pool_inv_reachable (orc : Orc) (ops : List Op) : Inv (run Code.real orc H.empty ops) :=
@@ -75,17 +77,17 @@ theorem encode_independent_of_garbage (orc orc' : Orc) (h : H) (g : JsonObj) (p 
     JSON Write delivers `pureJson` -/
 theorem json_independent_of_heap (orc : Orc) (h : H) (hi : Inv h) (p : Parent) (j : Job) :
     (step Code.real orc (step Code.real orc h (.encJson p j)) (.deliver 0)).out = Out.line (pureJson p j) :: h.out := by
-  obtain ⟨i1, r1⟩ := step_ok orc h ⟨h.inflight.map h.mem, h.live.map h.mem, h.out⟩ (.encJson p j) hi ⟨rfl, rfl, rfl⟩
+  obtain ⟨i1, r1⟩ := step_ok orc h (psOf h) (.encJson p j) hi (rel_self h)
   obtain ⟨_, r2⟩ := step_ok orc _ _ (.deliver 0) i1 r1
-  rw [r2.2.2]; simp [pstep]
+  rw [r2.2.2.1]; simp [pstep, psOf]
 
 /-- console `EncodeEntry` + `writeContext` on every heap satisfying the invariant: the pooled slice encoder, the
     pooled jsonEncoder used for the context and the three buffers involved are unobservable -/
 theorem console_independent_of_heap (orc : Orc) (h : H) (hi : Inv h) (p : Parent) (j : CJob) :
     (step Code.real orc (step Code.real orc h (.encConsole p j)) (.deliver 0)).out = Out.line (pureConsole p j) :: h.out := by
-  obtain ⟨i1, r1⟩ := step_ok orc h ⟨h.inflight.map h.mem, h.live.map h.mem, h.out⟩ (.encConsole p j) hi ⟨rfl, rfl, rfl⟩
+  obtain ⟨i1, r1⟩ := step_ok orc h (psOf h) (.encConsole p j) hi (rel_self h)
   obtain ⟨_, r2⟩ := step_ok orc _ _ (.deliver 0) i1 r1
-  rw [r2.2.2]; simp [pstep]
+  rw [r2.2.2.1]; simp [pstep, psOf]
 
 /-- `pureConsole` is the console line of C16 (`Console.consoleLine`) on the same inputs -/
 theorem pureConsole_is_consoleLine (c : Cfg) (sepRaw : Bytes) (e : Ent) (k : Console.Cols) (ctx : List (List Field))
@@ -136,7 +138,7 @@ theorem buffer_independent_of_garbage (orc : Orc) (h : H) (hp : PoolOK h) : (buf
     pool-free run `prun`, where each is computed from its own operation alone -/
 theorem history_independent (orc : Orc) (ops : List Op) :
     (run Code.real orc H.empty ops).out = (prun PS.empty ops).out :=
-  (run_ok orc ops _ _ inv_empty rel_empty).2.2.2
+  (run_ok orc ops _ _ inv_empty rel_empty).2.2.2.1
 
 /-- the statement of the property: the line of a JSON log call is the same first-in-process and after any history -/
 theorem json_same_first_or_later (orc orc' : Orc) (hist : List Op) (p : Parent) (j : Job) :
@@ -164,6 +166,8 @@ theorem others_same_first_or_later (orc : Orc) (hist : List Op) :
         some (Out.stack (if full then avail else avail.take 1))) ∧
     (∀ s, (run Code.real orc H.empty (hist ++ [.scratch s])).out.head? = some (Out.line s)) := by
   refine ⟨?_, ?_, ?_, ?_, ?_⟩ <;> intros <;> rw [history_independent, prun_append] <;> simp [prun, pstep]
+  rename_i ent cores after errOut
+  cases after <;> rfl
 
 /-! ## 4. buffer ownership -/
 
@@ -174,7 +178,7 @@ theorem buffer_owner (orc : Orc) (h : H) (hi : Inv h) (p : Parent) (j : Job) :
       b ∉ (step Code.real orc h (.encJson p j)).bufPool ∧
       (∀ o ∈ (step Code.real orc h (.encJson p j)).jsonPool, o.buf ≠ some b ∧ o.reflectBuf ≠ some b) ∧
       (step Code.real orc h (.encJson p j)).mem b = pureJson p j := by
-  obtain ⟨i1, r1⟩ := step_ok orc h ⟨h.inflight.map h.mem, h.live.map h.mem, h.out⟩ (.encJson p j) hi ⟨rfl, rfl, rfl⟩
+  obtain ⟨i1, r1⟩ := step_ok orc h (psOf h) (.encJson p j) hi (rel_self h)
   have hin : ∃ b rest, (step Code.real orc h (.encJson p j)).inflight = b :: rest := by
     have := r1.1
     simp only [pstep] at this
@@ -212,8 +216,8 @@ theorem in_flight_undisturbed (orc : Orc) (hist mid : List Op) (p : Parent) (j :
       some (Out.line (pureJson p j)) := by
   rw [history_independent, prun_append, prun_append, prun_append]
   generalize prun PS.empty hist = s0
-  obtain ⟨l', o', e⟩ := prun_nested mid 0 [] (pureJson p j) s0.inflight s0.live s0.out rfl hm
-  have : prun s0 [.encJson p j] = ⟨[] ++ pureJson p j :: s0.inflight, s0.live, s0.out⟩ := rfl
+  obtain ⟨l', k', o', e⟩ := prun_nested mid 0 [] (pureJson p j) s0.inflight s0.live s0.inHook s0.out rfl hm
+  have : prun s0 [.encJson p j] = ⟨[] ++ pureJson p j :: s0.inflight, s0.live, s0.inHook, s0.out⟩ := rfl
   rw [this, e]
   simp [prun, pstep]
 
@@ -222,10 +226,46 @@ theorem in_flight_undisturbed_console (orc : Orc) (hist mid : List Op) (p : Pare
       some (Out.line (pureConsole p j)) := by
   rw [history_independent, prun_append, prun_append, prun_append]
   generalize prun PS.empty hist = s0
-  obtain ⟨l', o', e⟩ := prun_nested mid 0 [] (pureConsole p j) s0.inflight s0.live s0.out rfl hm
-  have : prun s0 [.encConsole p j] = ⟨[] ++ pureConsole p j :: s0.inflight, s0.live, s0.out⟩ := rfl
+  obtain ⟨l', k', o', e⟩ := prun_nested mid 0 [] (pureConsole p j) s0.inflight s0.live s0.inHook s0.out rfl hm
+  have : prun s0 [.encConsole p j] = ⟨[] ++ pureConsole p j :: s0.inflight, s0.live, s0.inHook, s0.out⟩ := rfl
   rw [this, e]
   simp [prun, pstep]
+
+/-! ## 4b. a CheckedEntry stays out of the pool until its hook has returned -/
+
+/-- `CheckedEntry.Write` hands the entry to `hook.OnWrite(ce, fields)` and only afterwards to `putCheckedEntry`:
+    whatever happens while the hook runs — the hook logging through other loggers (`hnested`: hooks entered in the
+    meantime return in the meantime), other goroutines logging, checked entries written or dropped, GCs, for every
+    behaviour of sync.Pool and after any history — the hook reads the entry of ITS log call -/
+theorem hook_reads_own_entry (orc : Orc) (hist mid : List Op) (ent : Nat) (cores : List Nat) (a : Nat) (errOut : Option Nat)
+    (hm : hnested 0 mid = true) :
+    (run Code.real orc H.empty (hist ++ [.check ent cores (some a) errOut true] ++ mid ++ [.hookReturn 0])).out.head? =
+      some (Out.hook ent (some a)) := by
+  rw [history_independent, prun_append, prun_append, prun_append]
+  generalize prun PS.empty hist = s0
+  obtain ⟨f', l', o', e⟩ := prun_hnested mid 0 [] (ent, some a) s0.inHook s0.inflight s0.live
+    (Out.ce ent (cores.map some) (some a) errOut false :: s0.out) rfl hm
+  have : prun s0 [.check ent cores (some a) errOut true] =
+      ⟨s0.inflight, s0.live, [] ++ (ent, some a) :: s0.inHook, Out.ce ent (cores.map some) (some a) errOut false :: s0.out⟩ := rfl
+  rw [this, e]
+  simp [prun, pstep]
+
+/-- while a hook runs its entry is in no pool: `getCheckedEntry` can never hand it out -/
+theorem hooked_entry_not_pooled (orc : Orc) (ops : List Op) :
+    ∀ id ∈ (run Code.real orc H.empty ops).ceh.inHook, id ∉ (run Code.real orc H.empty ops).ceh.pool := by
+  intro id hid hp
+  have := (pool_inv_reachable orc ops).ce.1
+  exact (List.nodup_append.mp this).2.2 id hp id hid rfl
+
+/-- the call of `putCheckedEntry`, `putJSONEncoder` and `putSliceEncoder` is the last use of the object in its
+    caller (regenerated from the source): no read of the argument follows on any path to the end of the function -/
+theorem put_is_last_use :
+    (Gen.Pools.putUses.map fun s => (s.fn, s.recv, s.deferred, s.usesAfter)) =
+    [("zapcore.(consoleEncoder).EncodeEntry", "putSliceEncoder(arr)", false, 0),
+     ("zapcore.(CheckedEntry).Write", "putCheckedEntry(ce)", false, 0),
+     ("zapcore.(consoleEncoder).writeContext", "putJSONEncoder(context)", true, 0),
+     ("zapcore.(jsonEncoder).EncodeEntry", "putJSONEncoder(final)", false, 0)] := by
+  decide +kernel
 
 /-! ## 5. the source, as regenerated into `Gen/Pools.lean` -/
 
@@ -367,7 +407,7 @@ theorem leak_cores :
 
 /-- `after` not cleared by `reset`: the previous entry's hook (a panic/fatal hook) fires for the next entry -/
 theorem leak_after :
-    last (run { resetClearsAfter := false } lifo H.empty [.check 1 [7] (some 3) none true, .check 2 [9] none none true]) ≠
+    last (run { resetClearsAfter := false } lifo H.empty [.check 1 [7] (some 3) none true, .hookReturn 0, .check 2 [9] none none true]) ≠
     last (run { resetClearsAfter := false } lifo H.empty [.check 2 [9] none none true]) := by
   decide +kernel
 
@@ -381,6 +421,13 @@ theorem leak_errorOutput :
 theorem leak_early_free :
     last (run { freeAfterSink := false } lifo H.empty [.encJson P0 jPlain, .scratch [120], .deliver 0]) ≠
     last (run { freeAfterSink := false } lifo H.empty [.encJson P0 jPlain, .deliver 0]) := by
+  decide +kernel
+
+/-- `putCheckedEntry(ce)` before `hook.OnWrite(ce, fields)`: a log call made while the hook runs (by the hook itself, or by
+    another goroutine) is handed the same entry, and the hook reads THAT call's entry -/
+theorem leak_early_put :
+    last (run { putAfterHook := false } lifo H.empty [.check 1 [7] (some 3) none true, .check 2 [9] none none true, .hookReturn 0]) ≠
+    last (run { putAfterHook := false } lifo H.empty [.check 1 [7] (some 3) none true, .hookReturn 0]) := by
   decide +kernel
 
 /-! ## 7. non-vacuity -/
@@ -412,6 +459,11 @@ example : (⟨some 9, none, true, 5, none, some 3⟩ : JsonObj).PutInv ∧
 -- `nested` admits a re-entrant sink and interleaved Writes of other loggers
 example : nested 0 [.encJson P0 jPlain, .scratch [1], .encConsole P0 (cjPlain 65), .deliver 1, .gc (fun _ => false), .deliver 0] = true := by
   decide
+
+-- a hook that logs through two other loggers, one of them with a hook of its own, is `hnested`; the real code hands it its entry
+example : hnested 0 [.check 2 [9] none none true, .check 3 [8] (some 4) none true, .gc (fun _ => true), .hookReturn 0] = true := by decide
+example : last (run Code.real lifo H.empty [.check 1 [7] (some 3) none true, .check 2 [9] none none true, .hookReturn 0]) =
+          some (Out.hook 1 (some 3)) := by decide +kernel
 
 -- a real (pooled) Stack satisfies the invariant after a deep capture grew it
 example : ((captureFrom StackObj.fresh (List.replicate 100 7) true).1.storage.length = 128) := by decide +kernel
